@@ -369,7 +369,33 @@ def r18_6(ctx: Ctx) -> None:
                   construct="second reporter thread")
 
 
+def r18_7(ctx: Ctx) -> None:
+    """every extraction starts on a clean slate: before _extract queues its first event ('pre') the reporter of an EARLIER call has been
+    stopped - also on the path without a callback, where otherwise the earlier callback receives this call's 'pre'/'post' after its own
+    'post'."""
+    f = shared.szf(ctx, "_extract")
+    cfg = cfg_of(f.node)
+    pre = [c for t, c in puts(f) if t == "pre"]
+    ctx.floor("R18.7", len(pre), 1, "'pre' put in _extract")
+    joins = [c for c in q.calls(f) if attr_tail(c) == "join" and "reporterd" in norm(c.func.value)]
+    none_edges = []
+    for t in cfg.nodes:
+        if t.kind != "test":
+            continue
+        nt = q.is_none_test(t.ast)
+        if nt is not None and norm(nt[0]) == "self.reporterd":
+            none_edges += [e for e in t.succ if e.kind == ("true" if nt[1] else "false")]
+        if isinstance(t.ast, ast.Call) and attr_tail(t.ast) == "is_alive" and "reporterd" in norm(t.ast):
+            none_edges += [e for e in t.succ if e.kind == "false"]
+    for p in pre:
+        ok = bool(joins) and not cfg.reaches(cfg.entry, q.node_for(f, p), avoid=[q.node_for(f, j) for j in joins] + none_edges)
+        ctx.check(ok, "R18.7", f, p, "the earlier reporter is stopped before this call queues its first event, on every path",
+                  "_extract queues 'pre' on a path on which the reporter thread of an earlier call (with a callback) may still be running: after extractall(cb); reset(); "
+                  "extractall() the first callback is told about the second call's preparation and post-processing after its own 'post'", construct="pre before earlier reporter stopped")
+
+
 def run(ctx: Ctx) -> None:
+    r18_7(ctx)
     r18_6(ctx)
     r18_1(ctx)
     r18_2(ctx)
